@@ -41,26 +41,31 @@ GLOBAL_CARDINALITY_STORAGE: dict[Any, Any] = dict()
 GLOBAL_COUNTS_STORAGE: dict[Any, Any] = dict()
 GLOBAL_RARE_VALUE_STORAGE: dict[str, Any] = Counter()
 GLOBAL_PRIOR_COMB_COUNTS: dict[Any, int] = Counter()
+# candidates for constructed features (keyed by their join string) are counted apart from the ranking pairs
+GLOBAL_PRIOR_CONSTRUCTION_COUNTS: dict[str, dict[Any, int]] = defaultdict(Counter)
 IGNORED_VALUES = set()
 HYPERLL_ERROR_BOUND = 0.02
 MAX_FEATURES_3MR = 10 ** 4
 
 
-def prior_combinations_sample(combinations: list[tuple[Any, ...]], args: Any) -> list[tuple[Any, ...]]:
+def prior_combinations_sample(combinations: list[tuple[Any, ...]], args: Any, prior_counts: dict[Any, int] | None = None) -> list[tuple[Any, ...]]:
     """Make sure only relevant subspace of combinations is selected based on prior counts"""
+
+    if prior_counts is None:
+        prior_counts = GLOBAL_PRIOR_COMB_COUNTS
 
     if len(combinations) == 0:
         return []
 
-    missing_combinations = set(set(combinations)).difference(GLOBAL_PRIOR_COMB_COUNTS.keys())
+    missing_combinations = set(set(combinations)).difference(prior_counts.keys())
     if len(missing_combinations) > 0:
         for combination in missing_combinations:
-            GLOBAL_PRIOR_COMB_COUNTS[combination] = 0
+            prior_counts[combination] = 0
 
-    tmp = sorted(combinations, key=GLOBAL_PRIOR_COMB_COUNTS.get, reverse=False)[:args.combination_number_upper_bound]
+    tmp = sorted(combinations, key=prior_counts.get, reverse=False)[:args.combination_number_upper_bound]
 
     for combination in tmp:
-        GLOBAL_PRIOR_COMB_COUNTS[combination] += 1
+        prior_counts[combination] += 1
 
     return tmp
 
@@ -196,7 +201,9 @@ def compute_combined_features(
         full_combination_space = list(
             itertools.combinations(all_columns, interaction_order),
         )
-    full_combination_space = prior_combinations_sample(full_combination_space, args)
+    full_combination_space = prior_combinations_sample(
+        full_combination_space, args, GLOBAL_PRIOR_CONSTRUCTION_COUNTS[join_string],
+    )
 
     if args.reference_model_JSON != '':
         model_combinations = extract_features_from_reference_JSON(args.reference_model_JSON, combined_features_only=True)
@@ -721,6 +728,11 @@ def estimate_importances_minibatches(
     local_pbar.set_description('Wrapping up')
     local_pbar.close()
 
+    prior_comb_counts = GLOBAL_PRIOR_COMB_COUNTS.copy()
+    for join_string, construction_counts in GLOBAL_PRIOR_CONSTRUCTION_COUNTS.items():
+        for combination, count in construction_counts.items():
+            prior_comb_counts[join_string.join(combination)] = count
+
     return (
         step_timing_checkpoints,
         get_grouped_df(importances_df),
@@ -729,6 +741,6 @@ def estimate_importances_minibatches(
         memory_storage_batch,
         local_coverage_object,
         GLOBAL_RARE_VALUE_STORAGE.copy(),
-        GLOBAL_PRIOR_COMB_COUNTS.copy(),
+        prior_comb_counts,
         GLOBAL_COUNTS_STORAGE.copy(),
     )
